@@ -169,6 +169,13 @@ class Folder:
                     raise _Return(Sym(f"({a!r} if {t.text} else {b!r})"))
                 self.block(s.body if t else s.orelse)
                 continue
+            if isinstance(s, ast.For) and len(s.body) == 1 and isinstance(s.body[0], ast.If) and not s.orelse and not s.body[0].orelse \
+                    and len(s.body[0].body) == 1 and isinstance(s.body[0].body[0], ast.Return) \
+                    and isinstance(s.body[0].body[0].value, ast.Constant) and s.body[0].body[0].value.value is True:
+                # `for x in xs: if c(x): return True` followed by `return False`  ==  any(c(x) for x in xs)
+                rest = body[body.index(s) + 1:]
+                if len(rest) == 1 and isinstance(rest[0], ast.Return) and isinstance(rest[0].value, ast.Constant) and rest[0].value.value is False:
+                    raise _Return(Sym(f"CALL(any({unparse(s.body[0].test)} for {unparse(s.target)} in {unparse(s.iter)}))"))
             raise AnalysisError(f"KIND-TABLE: unsupported statement `{unparse(s)[:60]}` in {self.fn.name}")
 
     def _fork(self, arm: list[ast.stmt], rest: list[ast.stmt]) -> Any:
